@@ -1,5 +1,5 @@
 (* JudgeProofs.v — the extracted boolean judges decide the Props of the theorems. *)
-From PL Require Import Model.Level Spec.Hist Spec.Judges Proofs.IfaceProofs.
+From PL Require Import Model.Level Spec.Hist Spec.StatsSpec Spec.Judges Proofs.IfaceProofs Proofs.BaseLemmas.
 From Coq Require Import Lia ZifyBool ZifyN Sorted.
 Local Open Scope N_scope.
 
@@ -78,4 +78,199 @@ Proof.
       * assert (r_remaining r = 0) by (apply H2; reflexivity). lia.
       * assert (true = false) by (symmetry; apply H2; lia). discriminate.
     + intros t Ht. apply tx_ok_b_iff. auto.
+Qed.
+
+(* ================================================================== *)
+(* C06: exhaust_b                                                      *)
+
+Lemma exhaust_b_iff qty before after executed remaining :
+  exhaust_b qty before after executed remaining = true <->
+  Exhausts qty before after executed remaining.
+Proof.
+  unfold exhaust_b, Exhausts. rewrite andb_true_iff, orb_true_iff, forallb_forall. split.
+  - intros [Hlow Hex]. split; [lia|]. intros Hrem o Ho.
+    destruct Hex as [Hz|Hall]; [lia|]. specialize (Hall o Ho). lia.
+  - intros [Hlow Hex]. split; [lia|].
+    destruct (remaining =? 0) eqn:E; [left; reflexivity|right].
+    intros o Ho. assert (Hv : vis o = 0) by (apply Hex; [lia|exact Ho]). lia.
+Qed.
+
+(* the conclusions of C06_lower and C06_exhausts, read off any listings of the book
+   before and after the call, are [Exhausts] *)
+Lemma Exhausts_of_conclusions qty (m m' : list order) executed remaining before after :
+  Permutation before m -> Permutation after m' ->
+  N.min qty (sumv m) <= executed ->
+  (0 < remaining -> forall o, In o m' -> vis o = 0) ->
+  Exhausts qty before after executed remaining.
+Proof.
+  intros Pb Pa Hlow Hex. split.
+  - rewrite (sumv_perm _ _ Pb). exact Hlow.
+  - intros Hrem o Ho. apply (Hex Hrem). apply (Permutation_in _ Pa). exact Ho.
+Qed.
+
+(* ================================================================== *)
+(* C15: stats_b                                                        *)
+
+Lemma ev_tx_price_b_iff p e : ev_tx_price_b p e = true <-> ev_tx_price p e.
+Proof.
+  destruct e as [o x]. destruct x as [a|r|u| |sn s]; cbn [ev_tx_price_b ev_tx_price]; try tauto.
+  rewrite forallb_forall, Forall_forall. split; intros H t Ht; specialize (H t Ht); lia.
+Qed.
+
+Lemma stats_b_iff p h added removed qty value :
+  stats_b p h added removed qty value = true <-> StatsAgree p h added removed qty value.
+Proof.
+  unfold stats_b, StatsAgree. rewrite !andb_true_iff, !N.eqb_eq, forallb_forall, Forall_forall.
+  split.
+  - intros ((((Ha & Hr) & Hq) & Hv) & Hp). repeat split; try assumption.
+    intros e He. apply ev_tx_price_b_iff. auto.
+  - intros (Ha & Hr & Hq & Hv & Hp). repeat split; try assumption.
+    intros e He. apply ev_tx_price_b_iff. auto.
+Qed.
+
+(* when every transaction carries price [p], the value summed from the transactions is
+   the executed quantity times [p] *)
+Lemma sum_txval_price p txs :
+  Forall (fun t => tx_price t = p) txs -> sum_txval txs = sum_txq txs * p.
+Proof.
+  induction 1 as [|t txs Ht _ IH]; cbn [sum_txval sum_txq fold_right]; [reflexivity|].
+  fold (sum_txval txs). fold (sum_txq txs). rewrite IH, Ht, N.mul_add_distr_r. reflexivity.
+Qed.
+
+Lemma val_executed_price p h :
+  Forall (ev_tx_price p) h -> val_executed h = qty_executed h * p.
+Proof.
+  induction 1 as [|e h He _ IH]; cbn [val_executed qty_executed fold_right]; [reflexivity|].
+  fold (val_executed h). fold (qty_executed h). rewrite IH, N.mul_add_distr_r. f_equal.
+  destruct e as [o x]. destruct o; destruct x; cbn [ev_val ev_qty]; try reflexivity.
+  apply sum_txval_price. exact He.
+Qed.
+
+(* the conclusions of C15_stats_mod, with value = quantity x level price, are [StatsAgree] *)
+Lemma StatsAgree_of_conclusions p h added removed qty value :
+  added = n_added h mod W -> removed = n_removed p h mod W ->
+  qty = qty_executed h mod W -> value = (qty_executed h * p) mod W ->
+  Forall (ev_tx_price p) h ->
+  StatsAgree p h added removed qty value.
+Proof.
+  intros Ha Hr Hq Hv Hp. repeat split; try assumption.
+  rewrite (val_executed_price p h Hp). exact Hv.
+Qed.
+
+(* ================================================================== *)
+(* C07: update_ok_b, update_counts_b                                   *)
+
+Lemma option_N_eqb_refl (a : option N) : option_eqb N.eqb a a = true.
+Proof. apply option_N_eqb_eq. reflexivity. Qed.
+
+Lemma order_eqb_iff a b : order_eqb a b = true <-> a = b.
+Proof.
+  split.
+  - destruct a, b; cbn [order_eqb]; try discriminate; rewrite ?andb_true_iff; intros H;
+      repeat match goal with
+      | H : _ /\ _ |- _ => destruct H
+      | H : common_eqb _ _ = true |- _ => apply common_eqb_eq in H
+      | H : N.eqb _ _ = true |- _ => apply N.eqb_eq in H
+      | H : Z.eqb _ _ = true |- _ => apply Z.eqb_eq in H
+      | H : peg_eqb _ _ = true |- _ => apply peg_eqb_eq in H
+      | H : option_eqb N.eqb _ _ = true |- _ => apply option_N_eqb_eq in H
+      | H : Bool.eqb _ _ = true |- _ => apply Bool.eqb_prop in H
+      end; congruence.
+  - intros <-. destruct a; cbn [order_eqb];
+      rewrite ?(proj2 (common_eqb_eq _ _) eq_refl), ?N.eqb_refl, ?Z.eqb_refl,
+              ?(proj2 (peg_eqb_eq _ _) eq_refl), ?option_N_eqb_refl, ?Bool.eqb_reflx; reflexivity.
+Qed.
+
+Lemma oo_eqb_iff a b : oo_eqb a b = true <-> a = b.
+Proof.
+  destruct a as [x|], b as [y|]; cbn [oo_eqb option_eqb]; try (split; congruence).
+  rewrite order_eqb_iff. split; congruence.
+Qed.
+
+Lemma uout_eqb_iff x y : uout_eqb x y = true <-> x = y.
+Proof.
+  destruct x as [a|], y as [b|]; cbn [uout_eqb]; try (split; congruence).
+  rewrite oo_eqb_iff. split; congruence.
+Qed.
+
+Lemma lookup_in_ids k m o : lookup k m = Some o -> In k (ids m).
+Proof.
+  intros H. destruct (lookup_Some _ _ _ H) as [Hin Hid]. subst k. unfold ids. apply in_map. exact Hin.
+Qed.
+
+Lemma same_book_b_iff a b : same_book_b a b = true <-> same_book a b.
+Proof.
+  unfold same_book_b, same_book. rewrite forallb_forall. split.
+  - intros H k.
+    destruct (lookup k a) as [x|] eqn:Ea.
+    + rewrite <- Ea. apply oo_eqb_iff. apply H. apply in_or_app. left. exact (lookup_in_ids _ _ _ Ea).
+    + destruct (lookup k b) as [y|] eqn:Eb; [|reflexivity].
+      rewrite <- Ea, <- Eb. apply oo_eqb_iff. apply H. apply in_or_app. right. exact (lookup_in_ids _ _ _ Eb).
+  - intros H k _. apply oo_eqb_iff. apply H.
+Qed.
+
+Lemma same_book_except_b_iff k a b : same_book_except_b k a b = true <-> same_book_except k a b.
+Proof.
+  unfold same_book_except_b, same_book_except. rewrite forallb_forall. split.
+  - intros H k' Hne.
+    assert (Hk : forall j, j <> k -> In j (ids a ++ ids b) -> lookup j a = lookup j b).
+    { intros j Hj Hin. specialize (H j Hin). apply orb_true_iff in H. destruct H as [H|H].
+      - apply oid_eqb_eq in H. contradiction.
+      - apply oo_eqb_iff. exact H. }
+    destruct (lookup k' a) as [x|] eqn:Ea.
+    + rewrite <- Ea. apply (Hk k' Hne). apply in_or_app. left. exact (lookup_in_ids _ _ _ Ea).
+    + destruct (lookup k' b) as [y|] eqn:Eb; [|reflexivity].
+      rewrite <- Ea, <- Eb. apply (Hk k' Hne). apply in_or_app. right. exact (lookup_in_ids _ _ _ Eb).
+  - intros H k' _. apply orb_true_iff. destruct (oid_eqb k' k) eqn:E; [left; reflexivity|right].
+    apply oo_eqb_iff. apply H. apply oid_eqb_neq. exact E.
+Qed.
+
+Lemma update_ok_b_iff p before u r after :
+  update_ok_b p before u r after = true <-> UpdateOk p before u r after.
+Proof.
+  unfold update_ok_b, UpdateOk. cbv zeta.
+  destruct (classify p u) as [| |nq]; [|destruct (lookup (upd_key u) before) as [o|]..];
+    rewrite ?andb_true_iff, ?uout_eqb_iff, ?oo_eqb_iff, ?same_book_b_iff, ?same_book_except_b_iff;
+    tauto.
+Qed.
+
+Lemma update_counts_b_iff p before u cv ch cc cv' ch' cc' :
+  update_counts_b p before u cv ch cc cv' ch' cc' = true <->
+  UpdateCounts p before u cv ch cc cv' ch' cc'.
+Proof.
+  unfold update_counts_b, UpdateCounts.
+  destruct (classify p u) as [| |nq]; destruct (lookup (upd_key u) before) as [o|];
+    rewrite !andb_true_iff, !N.eqb_eq; tauto.
+Qed.
+
+(* both statements read the two listings only through [lookup]: any two listings that are
+   the same finite map give the same verdict *)
+Lemma UpdateOk_same_book p before before' u r after after' :
+  same_book before before' -> same_book after after' ->
+  UpdateOk p before u r after -> UpdateOk p before' u r after'.
+Proof.
+  intros Hb Ha. unfold UpdateOk. cbv zeta. rewrite <- (Hb (upd_key u)), <- (Ha (upd_key u)).
+  assert (Hsb : same_book after before -> same_book after' before').
+  { intros H k. rewrite <- (Ha k), <- (Hb k). apply H. }
+  assert (Hse : forall k, same_book_except k after before -> same_book_except k after' before').
+  { intros k H k' Hne. rewrite <- (Ha k'), <- (Hb k'). apply H. exact Hne. }
+  destruct (classify p u) as [| |nq]; [|destruct (lookup (upd_key u) before) as [o|]..];
+    intros H; decompose [and] H; repeat split; auto.
+Qed.
+
+Lemma UpdateCounts_same_book p before before' u cv ch cc cv' ch' cc' :
+  same_book before before' ->
+  UpdateCounts p before u cv ch cc cv' ch' cc' -> UpdateCounts p before' u cv ch cc cv' ch' cc'.
+Proof. intros Hb. unfold UpdateCounts. rewrite <- (Hb (upd_key u)). tauto. Qed.
+
+(* a listing of a book with unique ids is the same finite map as the book *)
+Lemma perm_same_book a b : NoDup (ids b) -> Permutation a b -> same_book b a.
+Proof.
+  intros ND P k.
+  assert (NDa : NoDup (ids a)) by (apply (NoDup_ids_perm b a); [apply Permutation_sym; exact P|exact ND]).
+  destruct (lookup k b) as [o|] eqn:E.
+  - destruct (lookup_Some _ _ _ E) as [Hin Hid]. subst k. symmetry.
+    apply lookup_NoDup_In; [exact NDa|]. apply (Permutation_in _ (Permutation_sym P)). exact Hin.
+  - symmetry. apply lookup_None. apply lookup_None in E. intros Hin. apply E.
+    apply (Permutation_in _ (ids_perm _ _ P)). exact Hin.
 Qed.
